@@ -7,8 +7,10 @@ EXPLANATION = ("Decides a call-graph containment that holds for all documents or
                "segment build can ORIGINATE an error from a document's content (bail!/anyhow!/Err construction in a function that "
                "takes the document or a JSON value of it) is also executed on the same document by IndexWriter::add_document, at a "
                "site that dominates the WAL append, with failure leading to an error return; and add_document appends to the log "
-               "only after all checks and queues only after the append. Assumes the checks are deterministic functions of "
-               "(schema, document).")
+               "only after all checks and queues only after the append; the checkers shared with the build (validate_document, "
+               "collect_document, encode_stored) run on EVERY accepting path of add_document, not merely on some (recursive "
+               "dominance of the success returns). The append is located by following calls from add_document, so helper extraction "
+               "does not change the verdict. Assumes the checks are deterministic functions of (schema, document).")
 
 STREAM = "searchlite_core::index::segment::SegmentWriter::<'a>::write_segment_stream"
 ADD = N.W + "::add_document"
